@@ -342,7 +342,10 @@ fn main() -> ! {
     // First, read from stdin if available (piped inputs)
     let mut stdin_content = String::new();
     if should_parse_piped_inputs {
-        let _ = io::stdin().read_to_string(&mut stdin_content);
+        if let Err(e) = io::stdin().read_to_string(&mut stdin_content) {
+            eprintln!("[input error] Failed to read inputs from stdin: {}", e);
+            std::process::exit(1);
+        }
         stdin_consumed = true;
 
         if !stdin_content.trim().is_empty() {
